@@ -1275,6 +1275,7 @@ func vfC17amWalk(t *testing.T, res *vfh.Result, cfg vfC17amCfg, w vfh.Walk, vari
 		firstTick := true
 		var relayCur []string // what the loop holds (ledger): last relay set / reachability it has taken
 		reachCur := "unknown"
+		var storedSeq uint64
 		for si, st := range w.Steps {
 			step = si
 			op := st.Op
@@ -1486,8 +1487,25 @@ func vfC17amWalk(t *testing.T, res *vfh.Result, cfg vfC17amCfg, w vfh.Walk, vari
 			cmp("am-holepunch-addrs-differ", "HolePunchAddrs()", want.Hp, hp)
 			psl, _ := h.u.names(h.ps.Addrs(h.pid))
 			cmp("am-peerstore-differs", "the host's own peerstore entry", want.Ps, psl)
-			if ra, _, has := h.record(); has || len(want.Ps) > 0 {
+			ra, rseq, has := h.record()
+			if has || len(want.Ps) > 0 {
 				cmp("am-record-differs", "the stored signed peer record", want.Ps, ra)
+			}
+			// A6: the record is rewritten exactly when an EvtLocalAddressesUpdated is emitted
+			nAddrEv := 0
+			for _, e := range evs {
+				if e.Kind == "addrs" {
+					nAddrEv++
+				}
+			}
+			if has && rseq != storedSeq && nAddrEv == 0 {
+				rep("am-record-rewritten-without-change", fmt.Sprintf("%s: the stored signed peer record went from seq %d to %d and no EvtLocalAddressesUpdated was emitted", op.Name(), storedSeq, rseq))
+			}
+			if has && rseq == storedSeq && nAddrEv > 0 {
+				rep("am-record-not-rewritten", fmt.Sprintf("%s: EvtLocalAddressesUpdated emitted and the stored signed peer record still has seq %d", op.Name(), rseq))
+			}
+			if has {
+				storedSeq = rseq
 			}
 			if sw != want.StartWait {
 				cls := "am-start-returned-early"
